@@ -11,6 +11,7 @@ import (
 // Fonts bundled with the repository, loaded once. Face sizes are in points.
 var (
 	fontOnce sync.Once
+	families [2]*canvas.FontFamily
 	fonts    [2]*canvas.Font
 	shapers  [2]text.Shaper
 	fontErr  error
@@ -27,6 +28,12 @@ func loadFonts() error {
 				return
 			}
 			fonts[i] = ft
+			fam := canvas.NewFontFamily(fmt.Sprintf("bundled%d", i))
+			if err := fam.LoadFontFile(f, canvas.FontRegular); err != nil {
+				fontErr = fmt.Errorf("%s: family: %w", f, err)
+				return
+			}
+			families[i] = fam
 			sh, err := text.NewShaperSFNT(ft.SFNT)
 			if err != nil {
 				fontErr = fmt.Errorf("%s: shaper: %w", f, err)
@@ -44,6 +51,15 @@ func Face(k int, pt float64) (*canvas.FontFace, error) {
 		return nil, err
 	}
 	return fonts[k].Face(pt, canvas.Black), nil
+}
+
+// FaceVariant returns a face of bundled font k through FontFamily.Face with the given variant (normal, subscript,
+// superscript): sub/superscript faces have a scaled size and offsets.
+func FaceVariant(k int, pt float64, variant canvas.FontVariant) (*canvas.FontFace, error) {
+	if err := loadFonts(); err != nil {
+		return nil, err
+	}
+	return families[k].Face(pt, canvas.Black, canvas.FontRegular, variant), nil
 }
 
 // Run is a piece of text in one bundled font.
@@ -103,7 +119,7 @@ func LayoutItems(runs []Run, faces []*canvas.FontFace, indent float64, justified
 	return text.GlyphsToItems(Glyphs(runs, faces), indent, align)
 }
 
-var tokText = map[string]string{"on": "on", "women": "women", "wo_men": "wo\u00ADmen", "new2": "new", "ne_w2": "ne\u00ADw", "sp": " ", "nbsp": "\u00A0", "idsp": "\u3000", "hy": "-", "nl": "\n",
+var tokText = map[string]string{"on": "on", "women": "women", "wo_men": "wo\u00ADmen", "new2": "new", "ne_w2": "ne\u00ADw", "sp": " ", "nbsp": "\u00A0", "idsp": "\u3000", "hy": "-", "nl": "\n", "crlf": "\r\n", "cr": "\r",
 	"heb": "\u05D0\u05D1\u05D2"} // Hebrew letters: the bundled fonts have no glyphs for them (.notdef advances), bidi levels and span geometry do not depend on that
 
 // TokenRuns builds the real text of a token list of spec/Layout.tla: "new2" is set in the second face.
